@@ -31,7 +31,20 @@ let hex_of_bytes (l : n list) : string =
     let b = Buffer.create 64 in
     List.iter (fun x -> Buffer.add_string b (Printf.sprintf "%02x" (int_of_n x))) l;
     Buffer.contents b end
-let n_of_string s = n_of_int (int_of_string s)
+(* decimal strings up to 2^64-1 (usize::MAX in a configuration line) *)
+let rec pos_of_u64 (x : int64) : positive =
+  if x = 1L then XH
+  else
+    let q = pos_of_u64 (Int64.shift_right_logical x 1) in
+    if Int64.logand x 1L = 0L then XO q else XI q
+let n_of_string s =
+  let x = Int64.of_string ("0u" ^ s) in
+  if x = 0L then N0 else Npos (pos_of_u64 x)
+(* for bounds printed and compared as OCaml ints: capped far above anything observable *)
+let capped_int_of_n (x : n) : int =
+  let rec bits p = match p with XH -> 1 | XO q | XI q -> 1 + bits q in
+  match x with N0 -> 0 | Npos p -> if bits p > 40 then 1 lsl 40 else int_of_n x
+let capped_int_of_string s = capped_int_of_n (n_of_string s)
 let rec int64_of_pos (p : positive) : int64 =
   match p with XH -> 1L | XO q -> Int64.mul 2L (int64_of_pos q) | XI q -> Int64.add (Int64.mul 2L (int64_of_pos q)) 1L
 (* values up to 2^64-1 print correctly (unsigned) *)
@@ -365,6 +378,8 @@ let handle_hist c =
     let step st o = cstep load m.m_root m.m_levels st o in
     let states : (string, cstate * apos) Hashtbl.t = Hashtbl.create 4 in
     Hashtbl.replace states "0" (cs_fresh, Fresh);
+    (* cursors whose model state is unknown (after a failed operation), and cursors re-synchronised since *)
+    let unknown : (string, bool) Hashtbl.t = Hashtbl.create 4 and resynced : (string, bool) Hashtbl.t = Hashtbl.create 4 in
     let levels = int_of_n m.m_levels in
     let stop = ref false in
     let opno = ref 0 in
@@ -376,9 +391,37 @@ let handle_hist c =
       match toks with
       | cid :: "clone" :: newid :: "=" :: _ ->
         Hashtbl.replace states newid (Hashtbl.find states cid);
+        if Hashtbl.mem unknown cid then Hashtbl.replace unknown newid true else Hashtbl.remove unknown newid;
+        if Hashtbl.mem resynced cid then Hashtbl.replace resynced newid true;
         if int_of_string newid <> !ncursors then sequential := false;
         incr ncursors;
         mops := MClone (nat_of_int (int_of_string cid)) :: !mops
+      | cid :: name :: q :: "=" :: ["F"] ->
+        (* the injected read failure surfaced as the I/O error of this operation: where the cursor is now is
+           unspecified; the model state is unknown until the next absolute move *)
+        ignore (parse_op name q);
+        sequential := false;
+        Hashtbl.replace states cid (cs_fresh, Unspec);
+        Hashtbl.replace unknown cid true
+      | cid :: name :: q :: "=" :: impl_res when Hashtbl.mem unknown cid ->
+        let o = parse_op name q in
+        let field = Printf.sprintf "op%d(%s)" !opno name in
+        let impl_r = (match impl_res with
+          | ["S"; k; v; _; _] -> "S " ^ k ^ " " ^ v | ["N"; _; _] -> "N" | ["E"; cls; _] -> "E " ^ cls | ["P"] -> "P"
+          | _ -> failwith "bad op result") in
+        if impl_r = "P" then spec_ok c (prop ^ ".nopanic") false (field ^ " panicked after the failed operation");
+        let (pos', spec_r) = aspec es Unspec o in
+        (match spec_r with
+         | Some r ->
+           (* an absolute move (or reset): unaffected by anything done before it, a failed operation included *)
+           spec_ok c (prop ^ "." ^ field ^ ".after_failure") (impl_r = res_string r)
+             (Printf.sprintf "after a failed operation on this cursor: impl=%s spec=%s (history position %d)" impl_r (res_string r) !opno);
+           (match step cs_fresh o with
+            | Done (st', r') -> check_eq c (field ^ ".after_failure") impl_r (res_string r');
+              Hashtbl.replace states cid (st', pos'); Hashtbl.remove unknown cid; Hashtbl.replace resynced cid true
+            | _ -> ())
+         | None -> ());
+        if String.length impl_r > 0 && (impl_r.[0] = 'E' || impl_r.[0] = 'P') then stop := true
       | cid :: name :: q :: "=" :: impl_res ->
         let (st, pos) = Hashtbl.find states cid in
         let o = parse_op name q in
@@ -410,7 +453,7 @@ let handle_hist c =
            glue_model := r :: !glue_model;
            let mloads = int_of_n st'.cs_loads - int_of_n st.cs_loads in
            incr n_checks;
-           if impl_loads > mloads then begin
+           if impl_loads > mloads && not (Hashtbl.mem resynced cid) then begin
              incr n_mismatch;
              if !n_mismatch <= max_report then
                Printf.printf "MISMATCH %s/%s %s.loads impl=%d model<=%d\n" c.kind c.id field impl_loads mloads end;
@@ -563,7 +606,7 @@ let parse_scfg c =
   match get c "scfg" with
   | [t; realloc; maxc; cap; stable; par] ->
     ({ sc_threshold = n_of_string t; sc_realloc = (realloc = "1"); sc_max_chunks = clamp_chunks (n_of_string maxc);
-       sc_init_cap = n_of_string cap }, stable = "1", int_of_string t, int_of_string maxc)
+       sc_init_cap = n_of_string cap }, stable = "1", int_of_string t, capped_int_of_string maxc)
   | _ -> failwith "scfg"
 
 (* the bound predicates of C08 / C17 on one observed state *)
@@ -578,7 +621,7 @@ let sorter_state_specs c prop (scfg : scfg) t_int small field (l, u, nb, _ch) =
 let handle_sorter c =
   let prop = get1 c "prop" in
   let (scfg, stable, t_int, _) = parse_scfg c in
-  let m_int = int_of_n scfg.sc_max_chunks in
+  let m_int = capped_int_of_n scfg.sc_max_chunks in
   let small = get1 c "small" = "1" in
   let mf : n -> n list -> n list list -> n list outcome = if stable then mf_concat else mf_sortcat in
   let ins = List.map (fun t -> match t with
@@ -586,6 +629,37 @@ let handle_sorter c =
   let st = ref (Done (s_new scfg)) in
   let nst = ref (Done (n_new scfg)) in
   let i = ref 0 in
+  (* a creator that fails one call (attempt number j) while the caller goes on inserting: followed with the
+     resumable insert of the model; the volume bound is evaluated after every insert, failed or not *)
+  let crfail = (match get_all c "crfail" with [[j]] -> Some (cr_fail_at (n_of_string j) (EIo (n_of_int 7))) | _ -> None) in
+  (match crfail with
+   | None -> ()
+   | Some cr ->
+     let cur = ref (s_new scfg) and alive = ref true in
+     List.iter (fun ((k, v), res) ->
+       incr i;
+       let field = Printf.sprintf "ins%d" !i in
+       if !alive && res <> ["-"] then begin
+         let (s', o) = fs_insert_r scfg cr mf !cur k v in
+         let state = Printf.sprintf "%s %s %s %d" (string_of_n s'.ss_buf.eb_L) (string_of_n s'.ss_buf.eb_U) (string_of_n s'.ss_buf.eb_n) (List.length s'.ss_chunks) in
+         let show = (match o with Done _ -> state | Panic -> "P" | Fail e -> "E " ^ err_name e ^ " " ^ state) in
+         check_eq c field (String.concat " " res) show;
+         (match res with
+          | [l; u; nb; ch] | ["E"; _; l; u; nb; ch] ->
+            sorter_state_specs c prop scfg t_int small field (int_of_string l, int_of_string u, int_of_string nb, int_of_string ch)
+          | _ -> spec_ok c (prop ^ ".nopanic") false (field ^ ": " ^ String.concat " " res));
+         (match o with Panic -> alive := false | _ -> ());
+         cur := s'
+       end) ins;
+     (match get_all c "out1" with
+      | [o1] when !alive ->
+        let model = (match fs_finish cr mf !cur with Done (l, _) -> entries_hash l | Panic -> "panic -" | Fail e -> "err " ^ err_name e) in
+        check_eq c "out1" (String.concat " " o1) model;
+        let attempts = int_of_n (creates !cur.ss_events) + 1 in
+        check_eq c "creates" (get1 c "creates") (string_of_int attempts)
+      | _ -> ());
+     st := Panic);
+  if (match crfail with None -> true | Some _ -> false) then
   List.iter (fun ((k, v), res) ->
     incr i;
     let field = Printf.sprintf "ins%d" !i in
@@ -636,7 +710,7 @@ let handle_sorter c =
 let handle_sortnum c =
   let prop = get1 c "prop" in
   let (scfg, _, t_int, _) = parse_scfg c in
-  let m_int = int_of_n scfg.sc_max_chunks in
+  let m_int = capped_int_of_n scfg.sc_max_chunks in
   let nst = ref (Done (n_new scfg)) in
   let i = ref 0 in
   List.iter (fun t -> match t with
